@@ -229,6 +229,28 @@ func (p *Pool) MarkUnavailable(ip net.IP) {
 	}
 }
 
+// AllocatedTo reports whether ip is currently allocated to mac.
+func (p *Pool) AllocatedTo(mac net.HardwareAddr, ip net.IP) bool {
+	p.mu.Lock()
+	defer p.mu.Unlock()
+
+	cur, exists := p.allocated[mac.String()]
+	return exists && cur.Equal(ip)
+}
+
+// Decline takes ip out of service after a DHCPDECLINE from mac: the
+// allocation of mac is dropped (if it is for ip) without returning ip to the
+// available list, and ip is marked unavailable.
+func (p *Pool) Decline(mac net.HardwareAddr, ip net.IP) {
+	p.mu.Lock()
+	if cur, exists := p.allocated[mac.String()]; exists && cur.Equal(ip) {
+		delete(p.allocated, mac.String())
+	}
+	p.mu.Unlock()
+
+	p.MarkUnavailable(ip)
+}
+
 // Stats returns pool statistics
 func (p *Pool) Stats() PoolStats {
 	p.mu.Lock()
